@@ -299,6 +299,24 @@ def h_links(o1: int, o2: int, o3: int, u1: bool, u2: bool, k1: bool, k2: bool, k
             for p in paths:
                 if p in recorded and p not in used and now[p] is not None and now[p] == recorded[p] and env.exists(p):
                     violation("unused-unmodified-link-kept", p)
+        if cube("passes", 1) == 2:
+            # the clean-up runs on every checkout: a second pass over the same workspace must not remove anything the first one spared
+            with NoTracing():
+                before2 = env.snapshot(env.p("w"))
+            try:
+                unused2 = st.get_unused_links(used, fs)
+                st.remove_links(unused2, fs)
+            except HarnessGap:
+                raise
+            except Exception as e:  # noqa: BLE001
+                violation("link-cleanup-raised", f"second pass: {type(e).__name__}: {e}")
+                return True
+            with NoTracing():
+                after2 = env.snapshot(env.p("w"))
+                gone2 = {env.p("w", k.split("/")[0]) for k in before2 if k not in after2}
+                for p in gone2:
+                    if p not in recorded or p in used or now[p] != recorded[p]:
+                        violation("cleanup-removed-modified-path", ("second pass", p, trace))
         journal({"trace": trace, "used": len(used), "removed": sorted(os.path.basename(p) for p in removed_top)}, nontrivial=bool(recorded))
         return True
     finally:
